@@ -280,3 +280,77 @@ REG.contract(
     props=["C06"],
     note="prefix ++ suffix == labels; ValueError iff depth out of range",
 )
+
+# ----------------------------------------------------------------------------- Level-2 lemmas (C06 order laws)
+FC = "dns.name.Name.fullcompare"
+
+
+def _lab(x, k):
+    return f"lower({x}.labels[len({x}.labels) - 1 - ({k})])"
+
+
+def BLT_TRANS(x, y, z, k):
+    """instance of transitivity of the octet-string order (A-lib) at label position k"""
+    return (f"(not (blt({_lab(x, k)}, {_lab(y, k)}) and blt({_lab(y, k)}, {_lab(z, k)}))) or blt({_lab(x, k)}, {_lab(z, k)})")
+
+
+REG.lemma(
+    "name_order_antisymmetric",
+    params={"a": NAME, "b": NAME},
+    uses=[(FC, {"self": "a", "other": "b"}, "rab"), (FC, {"self": "b", "other": "a"}, "rba")],
+    goals=[
+        "(rab[1] < 0) == (rba[1] > 0)",
+        "(rab[1] == 0) == (rba[1] == 0)",
+        "(rab[1] > 0) == (rba[1] < 0)",
+        "rab[2] == rba[2]",
+    ],
+    props=["C06"],
+    note="a < b iff b > a, a == b iff b == a, and the common-label count is symmetric (from the fullcompare contract only)",
+)
+
+REG.lemma(
+    "name_order_reflexive",
+    params={"a": NAME},
+    uses=[(FC, {"self": "a", "other": "a"}, "raa")],
+    goals=["raa[1] == 0", "raa[0] == dns.name.NameRelation.EQUAL", "raa[2] == len(a.labels)"],
+    props=["C06"],
+)
+
+for _h, _nm in (("rab[1] < 0 and rbc[1] < 0", "lt_lt"), ("rab[1] == 0 and rbc[1] < 0", "eq_lt"), ("rab[1] < 0 and rbc[1] == 0", "lt_eq"),
+                ("rab[1] == 0 and rbc[1] == 0", "eq_eq")):
+    REG.lemma(
+        f"name_order_transitive_{_nm}",
+        params={"a": NAME, "b": NAME, "c": NAME},
+        uses=[(FC, {"self": "a", "other": "b"}, "rab"), (FC, {"self": "b", "other": "c"}, "rbc"), (FC, {"self": "a", "other": "c"}, "rac")],
+        hyps=[_h] + [BLT_TRANS("a", "b", "c", k) for k in ("rab[2]", "rbc[2]", "rac[2]")],
+        goals=["rac[1] == 0" if _nm == "eq_eq" else "rac[1] < 0"],
+        props=["C06"],
+        note="transitivity of the canonical order (and of equality, and their mix) from three instances of the fullcompare "
+             "postcondition plus transitivity of the octet-string order at the deciding label",
+    )
+
+REG.lemma(
+    "name_eq_iff_case_insensitive_labels",
+    params={"a": NAME, "b": NAME},
+    uses=[(FC, {"self": "a", "other": "b"}, "rab")],
+    goals=[
+        f"(not rab[1] == 0) or (len(a.labels) == len(b.labels) and all({_lab('a', 'k')} == {_lab('b', 'k')} for k in range(len(a.labels))))",
+        f"rab[1] == 0 or not (len(a.labels) == len(b.labels) and all({_lab('a', 'k')} == {_lab('b', 'k')} for k in range(len(a.labels))))",
+    ],
+    props=["C06", "C07"],
+    note="names compare equal iff they have the same labels up to ASCII case",
+)
+
+REG.lemma(
+    "name_relation_agrees_with_subdomain",
+    params={"a": NAME, "b": NAME},
+    uses=[(FC, {"self": "a", "other": "b"}, "rab"), ("dns.name.Name.is_subdomain", {"self": "a", "other": "b"}, "sub"),
+          ("dns.name.Name.is_superdomain", {"self": "a", "other": "b"}, "sup")],
+    goals=[
+        "sub == (rab[0] == dns.name.NameRelation.SUBDOMAIN or rab[0] == dns.name.NameRelation.EQUAL)",
+        "sup == (rab[0] == dns.name.NameRelation.SUPERDOMAIN or rab[0] == dns.name.NameRelation.EQUAL)",
+        "(not sub) or rab[2] == len(b.labels)",
+    ],
+    props=["C06"],
+    note="the reported relation and common-label count agree with the subdomain/superdomain predicates",
+)
